@@ -772,6 +772,54 @@ fn h_vector_reduce(len1: usize, len2: usize) {
     core::mem::forget(ex);
 }
 
+// vector_dot over two 8-byte lanes (16-byte buffers, width 8 only): the exact sum of two products
+// of i64 lanes can need 128 bits, one more than the i128 that stands in for BigInt here.  Where
+// the exact value is representable the result must equal it; where it is not, the only claim is
+// that the builtin returns (its own arithmetic must not overflow a machine word - CBMC's overflow
+// checks apply to the real body, not to the stand-in's wrapping operations).
+fn h_vector_dot16() {
+    let a: [u8; 16] = kani::any();
+    // Two fully symbolic 64x64-bit products exhaust CBMC (24 GB); the second operand's lanes
+    // range over the boundary magnitudes the property names instead (the first stays arbitrary).
+    const EDGE: [i64; 6] = [i64::MIN, i64::MAX, -1, 1, 0, 1 << 32];
+    let s0: usize = kani::any();
+    let s1: usize = kani::any();
+    kani::assume(s0 < 6 && s1 < 6);
+    let mut b = [0u8; 16];
+    let l0 = EDGE[s0].to_le_bytes();
+    let l1 = EDGE[s1].to_le_bytes();
+    let mut k = 0;
+    while k < 8 {
+        b[k] = l0[k];
+        b[8 + k] = l1[k];
+        k += 1;
+    }
+    let mut ex = Ex::new();
+    let ba = ex.allocate_binary(a.to_vec()).unwrap();
+    let bb = ex.allocate_binary(b.to_vec()).unwrap();
+    let f3 = [Value::Binary(ba), Value::Binary(bb), int(8)];
+    let r = builtin_vector_dot::<NoEffect>(0, &tuple(&f3), &mut ex);
+    let lane = |x: &[u8; 16], i: usize| -> i128 {
+        let o = i * 8;
+        i64::from_le_bytes([x[o], x[o + 1], x[o + 2], x[o + 3], x[o + 4], x[o + 5], x[o + 6], x[o + 7]]) as i128
+    };
+    let p0 = lane(&a, 0) * lane(&b, 0);       // |p| <= 2^126: fits
+    let p1 = lane(&a, 1) * lane(&b, 1);
+    match r {
+        Ok(BuiltinResult::Value(v)) => match p0.checked_add(p1) {
+            Some(exact) => match v {
+                Value::Integer(n) => assert!(n.0 == exact, "exact dot product"),
+                _ => assert!(false, "dot product must return an integer"),
+            },
+            None => {
+                kani::cover!(true, "sum of products beyond 127 bits");
+            }
+        },
+        _ => assert!(false, "unexpected result kind"),
+    }
+    core::mem::forget(ex);
+}
+
 fn h_vector_take(len1: usize, len2: usize) {
     let (d, ld) = any_bytes::<8>(len1);
     let (m, lm) = any_bytes::<2>(len2);
@@ -1193,6 +1241,13 @@ fn c12_vector_reduce__8_4() {
 #[kani::stub(alloc::fmt::format, fmt_stub)]
 fn c12_vector_reduce__0_0() {
     h_vector_reduce(0, 0);
+}
+
+#[kani::proof]
+#[kani::unwind(18)]
+#[kani::stub(alloc::fmt::format, fmt_stub)]
+fn c12_vector_dot16__16_16() {
+    h_vector_dot16();
 }
 
 #[kani::proof]
